@@ -7,14 +7,17 @@ import PyrollModel.EvalDriver
     contour <x bits> <y bits> <x bits> <y bits> ...   -> ok <n>          (roll contour = groove contour)
     env k=<bits> k=<bits> ...                          -> ok              (`@valid` = 0 makes `is_valid` answer False)
     run <program>                                      -> `ok <x y x y ...> # <meas>=<bits> ...` | `raised <exc> # ...`
-    cache <two|three> <solve> [/ <solve>]*             -> `ok used=<prov|none> lines=.. ucs=.. gap=<bits|none>`: the history of ONE
+    cache <two|three> <solve> [/ <solve>]*             -> `ok used=<prov|none> lines=.. ucs=.. gap=<bits|none> ocs=<outcs> next=<outcs>`: the history of ONE
                                                           pass object, fresh at the start, in the model `OutCS.Cache` (generated
                                                           memos, `reevaluate_cache` chains of pass and roll, loop body,
                                                           `init_solve`); <solve> = `<k> <new|same> <g0 bits> <g1 bits> ...`:
                                                           `Unit.solve` with groove number k on the rolls (`new`: on a roll object
                                                           put in just before), the gap hook answering g0 during `init_solve` and
                                                           g_i in iteration i; <prov> = `<gap bits>:<k of the roll's contour
-                                                          line>:<k read directly | ->`
+                                                          line>:<k read directly | ->`; `ocs` = what the out profile's
+                                                          cross-section holds after the history, `next` = what it holds after one
+                                                          more `init_solve` (the START value of a further solve); <outcs> =
+                                                          `none` | `inherited` | `seeded:<prov>` | `built:<prov>`
     <formula name> k=<bits> ...                        -> EvalDriver (generated formula table)
 -/
 namespace OutCSDriver
@@ -68,6 +71,22 @@ def showProv (o : Option (Cache.Prov Float Nat)) : String :=
   | some v => floatToBitsStr v.gap ++ ":" ++ toString v.line ++ ":" ++ (match v.direct with | some d => toString d | none => "-")
   | none => "none"
 
+def showProvV (v : Cache.Prov Float Nat) : String :=
+  floatToBitsStr v.gap ++ ":" ++ toString v.line ++ ":" ++ (match v.direct with | some d => toString d | none => "-")
+
+def showOutCs (o : Option (Cache.OutCs Float Nat)) : String :=
+  match o with
+  | none => "none"
+  | some .inherited => "inherited"
+  | some (.seeded l) => "seeded:" ++ showProvV l
+  | some (.built l) => "built:" ++ showProvV l
+
+/-- groove and last gap of the last solve of a history (for one more `init_solve` on the same set-up) -/
+def lastSolve : List (Cache.Act Float Nat) → Option (Nat × Float) → Option (Nat × Float)
+  | [], r => r
+  | .solve k g0 gs :: rest, _ => lastSolve rest (some (k, gs.getLast?.getD g0))
+  | .newRoll :: rest, r => lastSolve rest r
+
 def handle (cfg : Cfg) (st : St) (line : String) : St × String :=
   match Proto.toks line with
   | "contour" :: rest =>
@@ -97,7 +116,10 @@ def handle (cfg : Cfg) (st : St) (line : String) : St × String :=
       let sh := fun (o : Option Float) => match o with
         | some x => floatToBitsStr x
         | none => "none"
-      (st, s!"ok used={showProv s.used.head?} lines={showProv s.lines} ucs={showProv s.ucs} gap={sh s.gapC}")
+      let nxt := match lastSolve acts.flatten none with
+        | some (k, g) => (Cache.initSolve c.pass g k c.init s).ocs
+        | none => s.ocs
+      (st, s!"ok used={showProv s.used.head?} lines={showProv s.lines} ucs={showProv s.ucs} gap={sh s.gapC} ocs={showOutCs s.ocs} next={showOutCs nxt}")
     | _, _ => (st, "bad-op")
   | _ => (st, EvalDriver.handle cfg.table line)
 
